@@ -62,6 +62,14 @@ def run_streams(chk, rng, fns, cells, pid):
         tf = work / ("g%d.utb" % i)
         tf.write_text(tablegen.table_text(entries))
         gen_tables.append(("unicode.dis," + str(tf), alphabet))
+    # generated multipass tables (correct / context / pass2-4 literal rules in both directions, look-backs, zero-width
+    # brackets, insertions that lengthen the text): every stage writes its own output buffer and position map
+    for i in range(40 if quick else 600):
+        r = rng.fork(("mp", i))
+        entries, rules, letters = tablegen.gen_c06_table(r, risky=r.chance(0.3), directions=("noback", "nofor"))
+        tf = work / ("m%d.utb" % i)
+        tf.write_text(tablegen.pass_table_text(entries, rules))
+        gen_tables.append(("unicode.dis," + str(tf), letters + [32]))
     streams = [(t, None) for t in tables] + gen_tables
     for tl, alphabet in streams:
         r = rng.fork(("cases", tl))
@@ -73,6 +81,9 @@ def run_streams(chk, rng, fns, cells, pid):
                 ln = trans.case_line(r.choice(fns), r.choice([0, 1, 4, 5, 128, 256]), inp,
                                      r.choice([4 * len(inp) + 8, r.range(0, len(inp) + 2)]), presence=r.choice([0, 12, 15]))
             lines.append(ln)
+        if alphabet is None and not cells:
+            for g in safety.gen_poison_probe(r) + safety.gen_poison_probe(r):
+                lines.append(trans.case_line(r.choice("TS"), r.choice([0, 0, 4]), g, 8 * len(g) + 20, presence=r.choice([0, 12])))
         if cells:
             # half of the braille inputs are real forward translations of text (then possibly cut or mutated)
             fl = []
